@@ -246,6 +246,7 @@ def run(ctx):
     # ---- the generic dynamic programme (Model/GenericCapa.v) on primitive floats against the real CAPA / MVCAPA, bit for bit ----
     from harness import floatstreams
     floatstreams.capa_float_stream(ctx, ctx.n(18, 120))
+    floatstreams.capa_l2_end_to_end_stream(ctx, ctx.n(16, 100))
 
 
 def capa_default_scale_stream(ctx):
